@@ -73,6 +73,7 @@ type FuncSpec struct {
 	AtCall     []*AtCall // ghost updates applied right after the k-th call (source order) of a callee
 	Lemmas     []*Clause // entry-state lemmas `forall v int, ... :: P`, proved by strong induction on the first variable
 	Uses       []*Clause
+	Refines    []string // refines <interface method key> with gf(self) := expr; ... (abstraction of ghost fields)
 }
 
 type PredDef struct {
@@ -167,7 +168,7 @@ var clauseKeywords = map[string]bool{
 	"decreases": true, "arith": true, "inline": true, "pure": true, "calllog": true, "call": true,
 	"assert": true, "lock": true, "finding": true, "pred": true, "fun": true, "axiom": true,
 	"lemma": true, "guards": true, "trusted": true, "note": true, "opt": true, "exit-ghost": true, "release-views": true, "assume-body": true,
-	"use": true, "ufun": true, "gfield": true, "ghost-at": true, "assume-at": true, "lockinv": true,
+	"use": true, "refines": true, "ufun": true, "gfield": true, "ghost-at": true, "assume-at": true, "lockinv": true,
 }
 
 func (cs *ContractSet) parseLines(file string, lines []string, nums []int, extern bool) error {
@@ -452,6 +453,8 @@ func (cs *ContractSet) parseLines(file string, lines []string, nums []int, exter
 		case "lock":
 			c, _ := mk(false)
 			cur.Lock = append(cur.Lock, c)
+		case "refines":
+			cur.Refines = append(cur.Refines, it.rest)
 		case "use":
 			c, err := mk(true)
 			if err != nil {
